@@ -373,6 +373,21 @@ def dirty_history(cfg_or_path, rng: Rng, n_dirty: int, n_later: int, dirty_episo
 
 
 # ------------------------------------------------------------------------------------------------ (b) interleaving
+_IMPORT_TIME: Dict[str, Any] = {}
+
+
+def nmne_class_attrs_at_import() -> Dict[str, Any]:
+    """the two NMNE class attributes as the import left them (captured the first time the rig looks, before any environment ran in this
+    process): since the F-10 repair no operation writes them (None / False); the rig still normalises and shields them so that a
+    re-introduced write is attributed"""
+    if not _IMPORT_TIME:
+        from primaite.game.agent.observations.nic_observations import NICObservation
+        from primaite.simulator.network.hardware.base import NetworkInterface
+        _IMPORT_TIME["nmne_config"] = NetworkInterface.nmne_config
+        _IMPORT_TIME["capture_nmne"] = NICObservation.capture_nmne
+    return _IMPORT_TIME
+
+
 class Shield:
     """Save / restore a channel of process-global state around the other instance's operations (attribution only)."""
 
@@ -444,13 +459,15 @@ def normalise_process_state():
     import numpy as np
     from primaite.game.agent.observations.nic_observations import NICObservation
     from primaite.simulator.network.hardware.base import NetworkInterface
-    from primaite.simulator.network.nmne import NMNEConfig
     from primaite.simulator.system.core.packet_capture import PacketCapture
     pin_opaque_widths()
+    orig = nmne_class_attrs_at_import()
     random.seed(20240917)
     np.random.seed(20240917)
-    NetworkInterface.nmne_config = NMNEConfig()
-    NICObservation.capture_nmne = NMNEConfig().capture_nmne
+    if NetworkInterface.nmne_config is not orig["nmne_config"]:
+        NetworkInterface.nmne_config = orig["nmne_config"]
+    if NICObservation.capture_nmne is not orig["capture_nmne"]:
+        NICObservation.capture_nmne = orig["capture_nmne"]
     PacketCapture.clear()
 
 
@@ -571,6 +588,12 @@ def gen_schedule(rng: Rng, n_a: int, space_a: int, space_b: int, b_first: bool, 
     return s
 
 
+# F-10 is REPAIRED (fix3-C04): a difference that disappears when the two NMNE class attributes are shielded is a regression and must be a
+# VIOLATION. The merged known_findings.json (not editable from here) still lists F-10 as open with channel "nmne-class-attrs"; the channel is
+# therefore reported under a name that stale entry does not match.
+NMNE_CHANNEL = "nmne-class-attrs-written-again(F-10-regression)"
+
+
 def interleaving(cfg_a: Dict, cfg_b: Dict, schedule: List[Tuple], globals_fp: Optional[Callable[[], Dict[str, str]]] = None) -> dict:
     own_solo: List[str] = []
     own_inter: List[str] = []
@@ -587,7 +610,7 @@ def interleaving(cfg_a: Dict, cfg_b: Dict, schedule: List[Tuple], globals_fp: Op
     if diff is None:
         return res
     fixes = {}
-    for name, sh in (("global-rng", (True, False)), ("nmne-class-attrs", (False, True)), ("both", (True, True))):
+    for name, sh in (("global-rng", (True, False)), (NMNE_CHANNEL, (False, True)), ("both", (True, True))):
         t = run_schedule(cfg_a, cfg_b, schedule, shield=sh)
         fixes[name] = first_difference(solo, t)
     if fixes["both"] is not None:
@@ -596,15 +619,15 @@ def interleaving(cfg_a: Dict, cfg_b: Dict, schedule: List[Tuple], globals_fp: Op
         # which known channels contribute as well
         if fixes["global-rng"] != diff:
             res["channels"].append("global-rng")
-        if fixes["nmne-class-attrs"] != diff:
-            res["channels"].append("nmne-class-attrs")
+        if fixes[NMNE_CHANNEL] != diff:
+            res["channels"].append(NMNE_CHANNEL)
     else:
         if fixes["global-rng"] is None:
             res["channels"] = ["global-rng"]
-        elif fixes["nmne-class-attrs"] is None:
-            res["channels"] = ["nmne-class-attrs"]
+        elif fixes[NMNE_CHANNEL] is None:
+            res["channels"] = [NMNE_CHANNEL]
         else:
-            res["channels"] = ["global-rng", "nmne-class-attrs"]
+            res["channels"] = ["global-rng", NMNE_CHANNEL]
     res["fixes"] = {k: (v is None) for k, v in fixes.items()}
     return res
 
